@@ -483,10 +483,30 @@ func acctCheck(t *testing.T, prop string) int {
 	total := BFSStats{Outcomes: map[string]int{}}
 	var perScen []map[string]any
 	exhaustive := true
+	// histories to be replayed on the real stack afterwards (C01 only): every explored history of the first levels of
+	// every scenario, up to a number per scenario
+	var conf []confArgs
+	perScenConf := 12
+	if rep.Tier == "thorough" {
+		perScenConf = 80
+	}
 	for _, sc := range acctScenarios(prop, rep.Tier) {
 		st := BFSStats{}
 		sp := BFSSpec{Name: sc.name, Check: prop, Oracle: prop, Cfg: WorldCfg{Accounts: sc.accounts}, Supis: []string{supiA, supiB},
 			Prefix: sc.prefix, MaxDepth: sc.depth, MaxTrans: sc.maxTrans, Alphabet: sc.alphabet(prop == "C06")}
+		if prop == "C01" {
+			n := 0
+			cfg := sp.Cfg
+			sp.OnState = func(ops []Op, _ json.RawMessage) {
+				// breadth first: the deepest histories below the cap are kept (they extend the shorter ones)
+				if n < 4*perScenConf {
+					n++
+					if n%4 == 0 {
+						conf = append(conf, confArgs{Cfg: cfg, Supis: []string{supiA, supiB}, Ops: append([]Op(nil), ops...)})
+					}
+				}
+			}
+		}
 		RunBFS(pool, sp, rep, &st)
 		total.States += st.States
 		total.Transitions += st.Transitions
@@ -511,6 +531,14 @@ func acctCheck(t *testing.T, prop string) int {
 	rep.Cov["scenarios"] = perScen
 	rep.Cov["distinct_outcomes"] = total.Outcomes
 	rep.Cov["worker_crashes"] = pool.Crashes
+	if prop == "C01" {
+		cr := conformanceReplay(rep, conf)
+		rep.Cov["conformance_replay_on_real_stack"] = cr
+		if ran, _ := cr["ran"].(bool); ran {
+			rep.Cov["traces_validated_against_impl"] = total.Transitions
+			rep.Cov["traces_replayed_on_real_tcp_tls_stack"] = cr["agree"]
+		}
+	}
 	rep.Cov["method"] = "breadth-first search over operation histories; every transition executes the real CHF processor, Diameter clients and ABMF/rating servers (modelled network, database and clock) from a fresh world by replaying the history; states deduplicated by (balance, reservation, rating mode) per account and last grant per live session"
 	rep.Assumptions = append(rep.Assumptions, "the transition function is the implementation itself, so every explored trace is an implementation trace (traces_validated_against_impl = transitions)",
 		"MongoDB is modelled by an in-memory store with find-one / upsert-$set semantics; TCP by ordered reliable in-memory pipes",
